@@ -22,6 +22,14 @@ def leadingFrames : Nat → Bytes → List Bytes × Bool
     | .eof => ([], bs.isEmpty)
     | _ => ([], false)
 
+/-- what follows the leading complete frames -/
+def restAfter : Nat → Bytes → Bytes
+  | 0, bs => bs
+  | fuel + 1, bs =>
+    match readFrame bs with
+    | .frame _ rest _ => restAfter fuel rest
+    | _ => bs
+
 /-- would this request, alone, be accepted by its branch (→ exactly one response)? -/
 def accepted (env : Env) (i : Nat) (r : Bytes) : Option Bytes :=
   match handle env i r with
@@ -49,6 +57,10 @@ def check (envOf : Nat → Bytes → Env) (stream : Bytes) (o : Obs) : Option St
     else if all && o.resps.length ≠ want.length then some "extra-or-missing-response"
     else if all && exact && o.ending ≠ .clean then some "clean-eof-reported-as-error"
     else if !all && o.resps.length > want.length then some "response-after-rejected-request"
+    -- a frame declared larger than 16 MiB is neither served nor waited for: the connection ends
+    -- with an error
+    else if all && (match readFrame (restAfter (stream.length + 1) stream) with | .tooLarge _ => true | _ => false) &&
+        o.ending ≠ .error then some "oversize-frame-not-refused"
     else none
 
 end Ysshra.Spec.C12
